@@ -14,9 +14,7 @@ static TapkeeOutput run_method(std::map<std::string, std::string>& f, const Dens
     const int k = f.count("k") ? std::stoi(f["k"]) : 5;
     std::srand((unsigned)std::stoul(f.count("seed") ? f["seed"] : "1"));
     tapkee::verif_shuffle_generator().seed(5489u);
-    std::vector<IndexType> idx(N);
-    for (int i = 0; i < N; ++i)
-        idx[i] = i;
+    std::vector<IndexType> idx = vs::ids(f, N);
     eigen_features_callback fcb(X);
     eigen_kernel_callback kcb(X);
     eigen_distance_callback dcb(X);
@@ -30,8 +28,9 @@ static TapkeeOutput run_method(std::map<std::string, std::string>& f, const Dens
 static std::string run_proj(std::map<std::string, std::string>& f)
 {
     const int N = std::stoi(f["N"]);
-    DenseMatrix data = vs::parse_mat(f["data"]);
+    DenseMatrix data = vs::all_data(f);
     DenseMatrix X = data.transpose();
+    std::vector<IndexType> idx = vs::ids(f, N);
     TapkeeOutput out = run_method(f, X);
     auto* impl = dynamic_cast<MatrixProjectionImplementation*>(out.projection.implementation.get());
     std::ostringstream s;
@@ -41,7 +40,7 @@ static std::string run_proj(std::map<std::string, std::string>& f)
     const int d = out.embedding.cols();
     DenseMatrix T(N, d);
     for (int i = 0; i < N; ++i)
-        T.row(i) = out.projection(DenseVector(X.col(i))).transpose();
+        T.row(i) = out.projection(DenseVector(X.col(idx[i]))).transpose();
     DenseMatrix q = f.count("q") && f["q"] != "-" ? vs::parse_mat(f["q"]) : DenseMatrix(0, X.rows());
     DenseMatrix Q(q.rows(), d);
     for (int r = 0; r < q.rows(); ++r)
@@ -59,11 +58,11 @@ static std::string run_proj(std::map<std::string, std::string>& f)
         auto t = vh::split(combs[r], ':');
         const int i = std::stoi(t[0]), j = std::stoi(t[1]);
         const double a = vh::parse_num(t[2]);
-        const DenseVector xi = X.col(i), xj = X.col(j);
+        const DenseVector xi = X.col(idx[i]), xj = X.col(idx[j]);
         DenseVector comb = a * out.projection(xi) + (1.0 - a) * out.projection(xj);
         C.row(r) = comb.transpose();
     }
-    const DenseVector x0 = X.col(0), xl = X.col(N - 1);
+    const DenseVector x0 = X.col(idx[0]), xl = X.col(idx[N - 1]);
     const DenseVector& first = out.projection(x0);
     DenseVector later = out.projection(xl);
     DenseVector E = first;
@@ -76,7 +75,7 @@ static std::string run_proj(std::map<std::string, std::string>& f)
 
 static std::string run_empty(std::map<std::string, std::string>& f)
 {
-    DenseMatrix X = vs::parse_mat(f["data"]).transpose();
+    DenseMatrix X = vs::all_data(f).transpose();
     TapkeeOutput out = run_method(f, X);
     std::ostringstream s;
     s << "ok has=" << (out.projection.implementation ? 1 : 0) << " rows=" << out.embedding.rows()
